@@ -79,7 +79,7 @@ def check_property(prop, tier, root, seed, quiet=False):
         rep = Reporter()
         rep.undecided(prop + ".LOAD", "load", root, repr(e))
         ver = verdict(prop, rep)
-        write_evidence(prop, tier, seed, rep, ver, time.time() - t0, reg[prop])
+        write_evidence(prop, tier, seed, rep, ver, time.time() - t0, reg[prop], root=root)
         return 2
     rep = run_rules(prop, P)
     ver = verdict(prop, rep)
@@ -98,7 +98,7 @@ def check_property(prop, tier, root, seed, quiet=False):
     meta.pop("rules", None)
     meta["digests"] = {m.path: m.digest for m in P.modules.values()}
     wall = time.time() - t0
-    write_evidence(prop, tier, seed, rep, ver, wall, meta, extra)
+    write_evidence(prop, tier, seed, rep, ver, wall, meta, extra, root=root)
     n_ok = sum(1 for o in rep.obs if o.status == "ok")
     if not quiet:
         print(
